@@ -45,6 +45,7 @@ type c09sg struct {
 	avail, saved int
 	keep         int  // value given to KeepFrom
 	kept         bool // KeepFrom was called
+	fetchBad     string // first partial Fetch(l) that is not the prefix of Fetch(available)
 }
 
 type c09world struct {
@@ -91,6 +92,15 @@ func (s *c09stream) ReassembledSG(sg reassembly.ScatterGather, ac reassembly.Ass
 	dir, start, end, skip := sg.Info()
 	_ = dir
 	rec := c09sg{sid: s.sid, bytes: data, start: start, end: end, skip: skip, avail: avail, saved: saved}
+	// a stream may ask for any shorter length: Fetch(l) is the first l of the available bytes
+	for l := 0; l < avail && rec.fetchBad == ""; l++ {
+		if avail > 64 && l > 24 && l < avail-24 && l%7 != 0 {
+			continue
+		}
+		if part := sg.Fetch(l); len(part) != l || !bytes.Equal(part, data[:l]) {
+			rec.fetchBad = fmt.Sprintf("Fetch(%d) = %x, first %d of Fetch(%d) = %x", l, part, l, avail, data[:l])
+		}
+	}
 	if len(w.script) > 0 {
 		e := w.script[w.ncalls%len(w.script)]
 		switch e[0] {
@@ -391,6 +401,9 @@ func c09run(c Case, g *c09guard) {
 			}
 			if o.ended {
 				fail("sg-after-end", fmt.Sprintf("step %d stream %d", step, g.sid))
+			}
+			if g.fetchBad != "" {
+				fail("fetch-prefix", fmt.Sprintf("step %d stream %d: %s", step, g.sid, g.fetchBad))
 			}
 			if g.saved < 0 || g.saved > g.avail || g.avail != len(g.bytes) {
 				fail("lengths", fmt.Sprintf("step %d available=%d saved=%d fetched=%d", step, g.avail, g.saved, len(g.bytes)))
